@@ -1,0 +1,46 @@
+//go:build verif
+
+package wazevo
+
+import (
+	"unsafe"
+
+	"github.com/tetratelabs/wazero/api"
+)
+
+// VerifCallEngineState is a read-only copy of the fields of a callEngine (and its executionContext)
+// that must be back in their idle state after every call, whatever its outcome.
+// It exists only under the `verif` build tag, for the verification harness.
+type VerifCallEngineState struct {
+	// ExitCode is executionContext.exitCode.
+	ExitCode uint32
+	// StackLen is len(callEngine.stack).
+	StackLen int
+	// StackTopAligned reports stackTop%16 == 0.
+	StackTopAligned bool
+	// StackTopInStack reports &stack[0] <= stackTop < &stack[0]+len(stack).
+	StackTopInStack bool
+	// RequiredInitialStackSize is requiredInitialStackSize() of this function object.
+	RequiredInitialStackSize int
+	// StackGrowRequiredSize is the last executionContext.stackGrowRequiredSize written by native code.
+	StackGrowRequiredSize uint64
+	// StackBottomIsStackStart reports executionContext.stackBottomPtr == &stack[0].
+	StackBottomIsStackStart bool
+}
+
+// VerifReadCallEngine returns the state of f when f is a compiler call engine.
+func VerifReadCallEngine(f api.Function) (s VerifCallEngineState, ok bool) {
+	c, ok := f.(*callEngine)
+	if !ok {
+		return s, false
+	}
+	base := uintptr(unsafe.Pointer(&c.stack[0]))
+	s.ExitCode = uint32(c.execCtx.exitCode)
+	s.StackLen = len(c.stack)
+	s.StackTopAligned = c.stackTop&15 == 0
+	s.StackTopInStack = base <= c.stackTop && c.stackTop < base+uintptr(len(c.stack))
+	s.RequiredInitialStackSize = c.requiredInitialStackSize()
+	s.StackGrowRequiredSize = uint64(c.execCtx.stackGrowRequiredSize)
+	s.StackBottomIsStackStart = c.execCtx.stackBottomPtr == &c.stack[0]
+	return s, true
+}
